@@ -141,58 +141,66 @@ func runC06(c *Ctx) {
 
 	// ---- R06a
 	rehashers := c.rehashHelpers()
-	c.allBodies(func(b bodyInfo) {
+	// writer helpers: unexported functions that write files but leave the re-hash to their callers.
+	// A call to such a helper is a write in the caller (fixpoint, at most 3 levels).
+	writerHelpers := map[*types.Func]bool{}
+	type r06 struct {
+		b   bodyInfo
+		ok  bool
+		n   ast.Node
+		pos token.Pos
+		why string
+	}
+	evalBody := func(b bodyInfo) (results []r06, has bool) {
 		info := b.fi.Info()
-		// skip Dir implementations' own primitive methods
 		if b.lit == nil && b.fi.Decl.Recv != nil {
 			switch b.fi.Decl.Name.Name {
 			case "WriteFile", "WriteCheckpoint":
 				if rt := info.TypeOf(b.fi.Decl.Recv.List[0].Type); implementsDir(rt, dir) {
-					return
+					return nil, false
 				}
 			}
 		}
-		var has bool
-		walkShallow(b.body, func(m ast.Node) bool {
-			if call, ok := m.(*ast.CallExpr); ok && isDirFileWrite(info, dir, call) {
-				has = true
-			}
-			return true
-		})
-		if !has {
-			return
-		}
-		c.funcs[b.name] = true
-		if b.name == "migrate.UnarchiveDirFrom" {
-			c.Check("R06a", b.name+"|listed exception", b.body.Pos(), true, "restores an archive verbatim (its own atlas.sum included)")
-			return
-		}
-		f := newFlow(info, b.body)
-		pm := parentMap(b.body)
 		isWrite := func(n ast.Node) bool {
 			hit := false
 			walkShallow(n, func(m ast.Node) bool {
-				if call, ok := m.(*ast.CallExpr); ok && isDirFileWrite(info, dir, call) {
-					hit = true
+				if call, ok := m.(*ast.CallExpr); ok {
+					if isDirFileWrite(info, dir, call) {
+						hit = true
+					}
+					if fn := calleeOf(info, call); fn != nil && writerHelpers[fn] {
+						hit = true
+					}
 				}
 				return true
 			})
 			return hit
 		}
+		walkShallow(b.body, func(m ast.Node) bool {
+			if isWrite(m) {
+				has = true
+			}
+			return true
+		})
+		if !has {
+			return nil, false
+		}
+		if b.name == "migrate.UnarchiveDirFrom" {
+			return []r06{{b: b, ok: true, pos: b.body.Pos(), why: "listed exception"}}, true
+		}
+		f := newFlow(info, b.body)
+		pm := parentMap(b.body)
 		isRehash := func(n ast.Node) bool {
 			if isDeferOrGo(n) {
 				return false
 			}
 			return nodeHasCall(info, n, func(fn *types.Func, _ *ast.CallExpr) bool { return rehashers[fn] }) != nil
 		}
-		okReturn := func(n ast.Node) bool {
-			return isReturn(n) && !inErrBranch(info, pm, n)
-		}
+		okReturn := func(n ast.Node) bool { return isReturn(n) && !inErrBranch(info, pm, n) }
 		for _, wp := range f.find(isWrite) {
 			node := wp.b.Nodes[wp.i]
-			key := b.name + "|write→rehash"
 			if isReturn(node) && !isRehash(node) {
-				c.Check("R06a", key, node.Pos(), false, "the file write is returned directly without re-hashing the directory")
+				results = append(results, r06{b: b, ok: false, pos: node.Pos(), why: "the file write is returned directly without re-hashing the directory"})
 				continue
 			}
 			starts := []point{after(wp)}
@@ -200,9 +208,68 @@ func runC06(c *Ctx) {
 				starts = []point{{okB, 0}}
 			}
 			n, found := f.reach(starts, isRehash, okReturn, true)
-			c.Check("R06a", key, nodePos(n, node.Pos()), !found, "after writing a file into the directory, %s is reachable on a non-error path without re-hashing (no call reaching WriteSumFile)", c.nodeAtOrEnd(n))
+			results = append(results, r06{b: b, ok: !found, n: n, pos: nodePos(n, node.Pos()), why: "after writing a file into the directory, " + c.nodeAtOrEnd(n) + " is reachable on a non-error path without re-hashing (no call reaching WriteSumFile)"})
 		}
-	})
+		return results, true
+	}
+	var all []bodyInfo
+	c.allBodies(func(b bodyInfo) { all = append(all, b) })
+	for round := 0; round < 3; round++ {
+		grew := false
+		for _, b := range all {
+			if b.lit != nil || writerHelpers[b.fi.Obj] || ast.IsExported(b.fi.Decl.Name.Name) {
+				continue
+			}
+			res, has := evalBody(b)
+			if !has {
+				continue
+			}
+			failing := false
+			for _, r := range res {
+				if !r.ok {
+					failing = true
+				}
+			}
+			if !failing {
+				continue
+			}
+			// has static callers in the repository?
+			callers := 0
+			for _, o := range all {
+				for _, call := range callsIn(o.body, false) {
+					if calleeOf(o.fi.Info(), call) == b.fi.Obj {
+						callers++
+					}
+				}
+			}
+			if callers > 0 {
+				writerHelpers[b.fi.Obj] = true
+				grew = true
+			}
+		}
+		if !grew {
+			break
+		}
+	}
+	for _, b := range all {
+		if b.lit == nil && writerHelpers[b.fi.Obj] {
+			c.funcs[b.name] = true
+			c.Check("R06a", b.name+"|writer helper (re-hash checked at its callers)", b.body.Pos(), true, "")
+			continue
+		}
+		res, has := evalBody(b)
+		if !has {
+			continue
+		}
+		c.funcs[b.name] = true
+		for _, r := range res {
+			key := b.name + "|write→rehash"
+			if r.why == "listed exception" {
+				key = b.name + "|listed exception"
+			}
+			c.Check("R06a", key, r.pos, r.ok, "%s", r.why)
+		}
+	}
 
 	// ---- R06e
 	c.Rule("R06e", "the sum written for a directory is that directory's own checksum: in every call WriteSumFile(D, S), S is the result of D.Checksum() (listed exception: MemDir.CopyFiles hashes the files it was just given, in the order produced by Dir.Files)", 6)
